@@ -73,7 +73,7 @@ add("C14", "exploration",
 add("C07", "exploration",
     "faithful-attachment oracle (written from the statement, independent of the client) over every single mutation of a correct response set, for every reachable data plan × limit 1..6, through uncached and caching clients; hostile Hash/Latest/poller scenarios one per case",
     "For each of the 17 reachable plans and limits 1..6 the correct exchanges of one Get are recorded from the simulated node and replayed under every single mutation (48 kinds: drop/duplicate/reorder/renumber/null/error member/broken parent/changed hash/item moved out of range or to another block or tx/changed blockHash/wrong JSON types/truncation at k/16/non-2xx with intact body/garbage); thorough adds sampled pairs. Get must fail when the mutated set is inconsistent in one of the statement's ways and otherwise return exactly the attachment the mutated data describe.",
-    "Trusted: refmodel/attach.go (oracle), simnode rendering. Undetectable omissions (a log simply absent from eth_getLogs) are not violations. One known finding listed.", "DESIGN.md §7 C07")
+    "Trusted: refmodel/attach.go (oracle), simnode rendering. Undetectable omissions (a log simply absent from eth_getLogs) are not violations.", "DESIGN.md §7 C07")
 
 add("C08", "exploration",
     "ground-truth and uncached-client equivalence per call + fetch counting from the node's request log + announced-pair membership for Latest; sequential and concurrent request mixes with injected fetch failures; poller at 2 ms and 1 h",
